@@ -54,6 +54,7 @@ def detect(a):
             p = sh("cd %s && ./check %s --tier %s" % (V, pid, a.tier), env=dict(os.environ, VERIF_SEED=str(a.seed)))
             vio = [l for l in p.stdout.splitlines() if l.startswith("VIOLATION")]
             res[pid] = {"exit": p.returncode, "violations": vio[:6], "seconds": round(time.time() - t0), "tier": a.tier, "seed": a.seed}
+            if p.returncode != 0 and not vio: res[pid]["output_tail"] = (p.stdout + p.stderr)[-1500:]
             print(pid, p.returncode, vio[:3]); sys.stdout.flush()
             rp = os.path.join(V, "replays", pid)
             if vio and os.path.isdir(rp):
